@@ -516,7 +516,8 @@ let model_snap (st : M.stage) : snap =
     @ List.map (body_entry "full") st.M.fulls @ List.map (body_entry "wait") st.M.waits in
   let scmps = List.map (fun (n, c) ->
     (string_of_name n, string_of_name c.M.c_renamed, string_of_name c.M.c_prev, c.M.c_size, string_of_name c.M.c_hash, c.M.c_parts)) st.M.cmps in
-  let sfinals = List.map (fun (n, d) -> (string_of_name n, List.length d, string_of_name (md5_name d))) st.M.finals in
+  let sfinals = List.map (fun (n, d) -> (string_of_name n, List.length d, string_of_name (md5_name d))) st.M.finals
+                @ List.map (fun (n, d) -> (string_of_name n ^ ".lck", List.length d, string_of_name (md5_name d))) st.M.flcks in
   let slog = List.map (fun r -> (string_of_name r.M.l_name, string_of_name r.M.l_renamed, string_of_name r.M.l_hash, string_of_z r.M.l_size)) st.M.rlog in
   { sfiles; scmps; sfinals; slog }
 
@@ -549,6 +550,27 @@ let suite_stage t v =
           let b = nz t in let e = nz t in let tm = nz t in
           { M.p_name = n; p_renamed = r; p_prev = pv; p_size = M.Z0; p_hash = h; p_beg = b; p_end = e; p_time = tm }))
     | "SQ" -> let n = name_tok () in let off = ni t in `SQ (n, off)
+    | "IM" ->
+        let nann = ni t in
+        let ann = times nann (fun () ->
+          let n = name_tok () in let h = name_tok () in let c = bytes_of_hex (next t) in
+          let pv = name_tok () in let rn = name_tok () in (n, h, c, pv, rn)) in
+        let bodies () = let k = ni t in times k (fun () -> let n = name_tok () in let d = bytes_of_hex (next t) in (n, d)) in
+        let ps = bodies () in let fs = bodies () in let ws = bodies () in
+        let nc = ni t in
+        let cs = times nc (fun () ->
+          let (n, r, pv, sz, h, parts) = parse_cmp t in
+          (digits_of_string n, { M.c_renamed = digits_of_string r; c_prev = digits_of_string pv; c_size = sz;
+                                 c_hash = digits_of_string h; c_parts = parts })) in
+        let fins = bodies () in let lcks = bodies () in
+        let nl = ni t in
+        let recs = times nl (fun () ->
+          let n = name_tok () in let r = name_tok () in let h = name_tok () in let sz = nz t in let tm = nz t in
+          { M.l_name = n; l_renamed = r; l_hash = h; l_size = sz; l_time = tm }) in
+        let img = { M.init_stage with
+                    M.parts = List.map (fun (n, d) -> (n, { M.sf_data = d; sf_old = false })) ps;
+                    fulls = fs; waits = ws; cmps = cs; finals = fins; flcks = lcks; rlog = recs } in
+        `IM (ann, img)
     | "AG" -> `AG (name_tok ())
     | "TM" -> let n = name_tok () in let e = nz t in let d = bytes_of_hex (next t) in `TM (n, e, d)
     | s -> raise (Malformed ("stage op " ^ s))) in
@@ -561,6 +583,8 @@ let suite_stage t v =
   let ann_prev : (string * string, string) Hashtbl.t = Hashtbl.create 8 in  (* (name,hash) -> prev *)
   let written : (string * string, (M.z * M.z)) Hashtbl.t = Hashtbl.create 8 in (* (name,hash) -> acknowledged written ranges *)
   let short_read = ref false and reannounce = ref false in
+  let crash_image = ref None in
+  let after_recover = ref false in
   let cleared : (string, unit) Hashtbl.t = Hashtbl.create 4 in
   let cleaned_once = ref false in
   (* is the file on a cycle of announced predecessor references (any version)? then the
@@ -595,6 +619,7 @@ let suite_stage t v =
     if List.sort compare isn.slog <> List.sort compare msn.slog then diff v ("log@" ^ ks);
     (* C01: every delivered file is byte-identical to an announced version and its hash is the logged one *)
     List.iter (fun (tn, _, m) ->
+      if not (Filename.check_suffix tn ".lck") then
       let logged = List.exists (fun (n, r, h, _) -> (if r = "" then n else r) = tn && h = m) isn.slog in
       let announced_ok = List.exists (fun (n, r, h, _) -> (if r = "" then n else r) = tn && List.mem h (Hashtbl.find_all announced n) && h = m) isn.slog in
       if not (logged && announced_ok) then
@@ -658,7 +683,39 @@ let suite_stage t v =
        | `RS ->
            let isn = parse_snap t in
            st := M.settle md5_name M.sETTLE_FUEL (M.restart md5_name (M.settle md5_name M.sETTLE_FUEL !st now) now) now;
-           check_snapshot k isn (model_snap !st)
+           let msn = model_snap !st in
+           (match !crash_image with
+            | Some (ann, img) when not !after_recover ->
+                after_recover := true;
+                let target n rn = if rn = [] then string_of_name n else string_of_name rn in
+                (* nothing that was validated (held in .wait) or logged before the crash may be lost or left undelivered *)
+                List.iter (fun (n, _, _, _, rn) ->
+                  let ns = string_of_name n in
+                  let was_wait = M.ahas n img.M.waits in
+                  let was_logged = List.exists (fun r -> M.name_eqb r.M.l_name n) img.M.rlog in
+                  if was_wait || was_logged then begin
+                    let ok = List.exists (fun (fn, e, _, _) -> fn = ns && e = "wait") isn.sfiles
+                             || List.exists (fun (fn, _, _) -> fn = target n rn) isn.sfinals in
+                    if not ok then
+                      oracle v "validated_file_lost_or_misnamed_after_crash"
+                        (not (List.exists (fun (fn, e, _, _) -> fn = ns && e = "wait") msn.sfiles
+                              || List.exists (fun (fn, _, _) -> fn = target n rn) msn.sfinals))
+                  end) ann;
+                (* the record of partly received files must describe bytes that are really there *)
+                List.iter (fun (n, _, _, _, h, ps) ->
+                  match List.find_opt (fun (an, ah, _, _, _) -> string_of_name an = n && string_of_name ah = h) ann with
+                  | Some (an, _, content, _, _) ->
+                      (match List.find_opt (fun (pn, _) -> M.name_eqb pn an) (!st).M.parts with
+                       | Some (_, sf) ->
+                           let okr (b, e) =
+                             let b = int_of_z b and e = int_of_z e in
+                             e <= List.length sf.M.sf_data && e <= List.length content &&
+                             (let rec cmp i = i >= e || (M.Z.eqb (List.nth sf.M.sf_data i) (List.nth content i) && cmp (i + 1)) in cmp b) in
+                           if not (List.for_all okr ps) then oracle v "record_claims_bytes_not_held_after_crash" false
+                       | None -> ())
+                  | None -> ()) isn.scmps
+            | _ -> ());
+           check_snapshot k isn msn
        | `CL ->
            let isn = parse_snap t in
            let before = M.settle md5_name M.sETTLE_FUEL !st now in
@@ -727,10 +784,38 @@ let suite_stage t v =
              if not (cmps_equal ic mc) then diff v ("scan@" ^ ks);
              st := st'
            end
+       | `IM (ann, img) ->
+           ignore (next t);
+           crash_image := Some (ann, img);
+           List.iter (fun (n, h, _, pv, _) ->
+             let ns = string_of_name n and hs = string_of_name h in
+             if not (List.mem hs (Hashtbl.find_all announced ns)) then Hashtbl.add announced ns hs;
+             Hashtbl.replace ann_prev (ns, hs) (string_of_name pv)) ann;
+           (* bytes that are in the image's staged files count as written for the soundness oracle *)
+           List.iter (fun (n, c) ->
+             List.iter (fun r -> Hashtbl.add written (string_of_name n, string_of_name c.M.c_hash) r) c.M.c_parts) img.M.cmps;
+           st := fst (M.sstep md5_name !st (M.OImage img))
        | `AG n -> ignore (next t); st := fst (M.sstep md5_name !st (M.OAge n))
        | `TM (n, e, d) -> ignore (next t); st := fst (M.sstep md5_name !st (M.OTamper (n, e, d))));
       if v.diffs <> [] then stop := true
     end) ops;
+  (* C06: end of the resumption after a crash *)
+  (match !crash_image, !last_snap with
+   | Some (ann, img), Some fin when v.diffs = [] ->
+       List.iter (fun (n, h, _, _, rn) ->
+         let ns = string_of_name n and hs = string_of_name h in
+         let tgt = if rn = [] then ns else string_of_name rn in
+         let delivered = List.exists (fun (fn, _, m) -> fn = tgt && m = hs) fin.sfinals in
+         let lck_in_image = M.ahas (if rn = [] then n else rn) img.M.flcks in
+         if not delivered then
+           oracle v (if lck_in_image then "delivered_under_lock_name_after_crash" else "not_delivered_after_crash_and_resume")
+             (not (List.exists (fun (fn, _, m) -> fn = tgt && m = hs) (model_snap !st).sfinals));
+         let nrec = List.length (List.filter (fun (ln, _, lh, _) -> ln = ns && lh = hs) fin.slog) in
+         let img_logged = List.exists (fun r -> M.name_eqb r.M.l_name n) img.M.rlog in
+         let img_final = M.ahas (if rn = [] then n else rn) img.M.finals in
+         let allowed = if img_logged && not img_final then 2 else 1 in
+         if nrec > allowed then oracle v "redelivered_after_crash" false) ann
+   | _ -> ());
   v.cls <- (if !reannounce then "F" else "D");
   v.nontrivial <- (match !last_snap with Some s -> s.sfinals <> [] || s.sfiles <> [] | None -> false)
 
